@@ -235,17 +235,24 @@ func (e *Encoder) Match(dist int64, n int) {
 	e.copyMatch(dist, n)
 }
 
-// EOS encodes the end marker.
-func (e *Encoder) EOS() {
+// EOS encodes the end marker with the minimal length 2.
+func (e *Encoder) EOS() { e.EOSLen(2) }
+
+// EOSLen encodes the end marker (a match with distance 0xFFFFFFFF) with the
+// given length 2..273; decoders must accept any length.
+func (e *Encoder) EOSLen(n int) {
+	if n < 2 || n > 273 {
+		panic("reflzma.Encoder: end marker length out of range")
+	}
 	m := e.M
 	posState := e.pos() & (1<<uint(m.P.PB) - 1)
 	st := m.state
 	e.rc.bit(&m.isMatch[st][posState], 1)
 	e.rc.bit(&m.isRep[st], 0)
 	m.rep[3], m.rep[2], m.rep[1] = m.rep[2], m.rep[1], m.rep[0]
-	m.lenD.encode(e.rc, posState, 0)
+	m.lenD.encode(e.rc, posState, uint32(n-2))
 	m.state = uint32(nextMatch[st])
-	e.encodeDist(eosDist, 0)
+	e.encodeDist(eosDist, uint32(n-2))
 	m.rep[0] = eosDist
 }
 
